@@ -14,6 +14,22 @@ from envlib import Adapter, Config
 SQRT2_F32 = float(np.sqrt(np.float32(2)))
 
 
+def _zero_demand_generator(n, cap, dem):
+    """instances in which about a third of the customers order nothing (the demand spec allows 0): visiting such a customer is a
+    visit like any other — it must not refill the vehicle"""
+    import jax
+    import jax.numpy as jnp
+    from jumanji.environments.routing.cvrp.generator import UniformGenerator
+
+    class ZeroDemand(UniformGenerator):
+        def __call__(self, key):
+            s = super().__call__(key)
+            z = jax.random.uniform(jax.random.fold_in(key, 11), s.demands.shape) < 0.34
+            return s.replace(demands=jnp.where(z, 0, s.demands).at[0].set(0))
+
+    return ZeroDemand(num_nodes=n, max_capacity=cap, max_demand=dem)
+
+
 def _full_load_generator(n, cap):
     """every customer fills the vehicle: legal play must alternate customer / depot, the episode lasts exactly
     2n steps and the last trajectory write (index 2n) falls off the array"""
@@ -46,7 +62,8 @@ class A(Adapter):
 
         # (tag, num_nodes, max_capacity, max_demand, generator kind)
         sizes = [("tiny", 2, 3, 3, "uniform"), ("tight", 5, 4, 4, "uniform"), ("odd", 7, 12, 6, "uniform"),
-                 ("full", 4, 5, 5, "full"), ("default", 20, 30, 10, "uniform")]
+                 ("full", 4, 5, 5, "full"), ("default", 20, 30, 10, "uniform"),
+                 ("zero", 7, 9, 6, "zero")]
         if tier != "quick":
             sizes += [("one", 1, 2, 2, "uniform"), ("roomy", 6, 100, 3, "uniform"), ("full9", 9, 2, 2, "full"),
                       ("n30", 30, 20, 10, "uniform")]
@@ -56,6 +73,8 @@ class A(Adapter):
                 def gen(n=n, cap=cap, dem=dem, kind=kind):
                     if kind == "full":
                         return _full_load_generator(n, cap)
+                    if kind == "zero":
+                        return _zero_demand_generator(n, cap, dem)
                     return UniformGenerator(num_nodes=n, max_capacity=cap, max_demand=dem)
 
                 def build(gen=gen, dense=dense):
@@ -67,7 +86,9 @@ class A(Adapter):
                 out.append(Config(f"cvrp-{tag}-n{n}-c{cap}-d{dem}-{'dense' if dense else 'sparse'}", build,
                                   {"num_nodes": n, "max_capacity": cap, "max_demand": dem, "dense": dense,
                                    "sqrt2": rat(SQRT2_F32)},
-                                  dense=dense, n=n, partner=partner))
+                                  dense=dense, n=n, partner=partner,
+                                  # not a shipped generator: its instances are not subject to the generator certificates of C10
+                                  **({"only": {"C01", "C03", "C04", "C05", "C06", "C08", "C09", "C11", "C12"}} if kind == "zero" else {})))
         return out
 
     # ---- serialisation
